@@ -125,6 +125,9 @@ def main(args: Any) -> int:
             return bool(f["simulated"]), f"concrete simulation along the solver's path: {f['simulated'][:3]}"
 
         rep.candidate(key, f"{f['detail']} (value {f['value']}) in {f['fn']}", {"path": f["path"]}, replay)
+    from vf import c06_glue
+
+    c06_glue.run(rep, args.tier)
     return rep.finish()
 
 
